@@ -161,3 +161,45 @@ package remedies
 //@   ensures[ungrouped-without-allocation] gTried && remedyConfig.GroupQuotaAllocation == nil ==> gTryGroup == limit.UngroupedLimit && gTryGrouping == limit.Ungrouped && gTryRatio == 1.0
 //@   ensures[configured-window] gTried ==> gTryAllowed == remedyConfig.AllowedRequestCount && gTryWindow == remedyConfig.WindowSizeInSeconds * 1000000000
 //@   ensures[share-of-own-group] gTried && remedyConfig.GroupQuotaAllocation != nil ==> (exists(j, 0, len(remedyConfig.GroupQuotaAllocation.Groups), groupMatches(remedyConfig, onRequest, j) && gTryRatio == remedyConfig.GroupQuotaAllocation.Groups[j].AllocationPercentage / 100.0)) || (forall(j, 0, len(remedyConfig.GroupQuotaAllocation.Groups), !groupMatches(remedyConfig, onRequest, j)) && (remedyConfig.GroupQuotaAllocation.DefaultBehavior() == sharedConfig.DefaultQuotaGroupBehaviorUseDefaultAllocation ==> gTryRatio == remedyConfig.GroupQuotaAllocation.DefaultAllocationPercentage / 100.0))
+
+// ---------------------------------------------------------------- C10: the queue remedy uses the queue of its own remedy and strategy and obeys its verdict
+// ghost record of the Enqueue made on behalf of this request (the queue itself is proved in utils/queue)
+//@ ghost var gEnqDone bool
+//@ ghost var gEnqQueue queue.DelayedPriorityQueueable
+//@ ghost var gEnqReq *queue.Request
+//@ ghost var gEnqTTL int64
+//@ ghost var gEnqSize int64
+//@ ghost var gEnqProceed bool
+//@ iface DelayedPriorityQueueable.Enqueue
+//@   params req, ttl, queueSize
+//@   modifies gEnqDone, gEnqQueue, gEnqReq, gEnqTTL, gEnqSize, gEnqProceed, now
+//@   ensures gEnqDone && gEnqQueue == self && gEnqReq == req && gEnqTTL == ttl && gEnqSize == queueSize && (gEnqProceed <==> result0)
+//@ dropped StrategyBasedQueuePlugin).incrementRequestsMetric
+// the queue factory handed to the plugin returns a queue and touches nothing of the plugin (trusted: NewStrategyBasedQueue)
+//@ field StrategyBasedQueuePlugin.initQueue
+//@   params queueKey
+//@   modifies now
+//@   ensures result != nil
+
+// priority of a request: the priority listed for its group header value, 0 (the best) when nothing is listed
+//@ func extractPriority
+//@   prop C10
+//@   requires remedyConfig.Prioritization != nil ==> remedyConfig.Prioritization.Groups != nil
+//@   modifies nothing
+//@   ensures[no-prioritization] remedyConfig.Prioritization == nil ==> result == 0.0
+//@   ensures[listed-priority] remedyConfig.Prioritization != nil && in(remedyConfig.Prioritization.GroupBy.HeaderName, onRequest.Headers) && in(onRequest.Headers[remedyConfig.Prioritization.GroupBy.HeaderName], remedyConfig.Prioritization.Groups) ==> result == remedyConfig.Prioritization.Groups[onRequest.Headers[remedyConfig.Prioritization.GroupBy.HeaderName]].Priority
+
+//@ func (*StrategyBasedQueuePlugin).OnRequest
+//@   prop C10
+//@   requires plugin != nil && plugin.queues != nil && plugin.clock != nil && plugin.initQueue != nil && scopedRemedy.Remedy != nil
+//@   requires scopedRemedy.Remedy.Config.StrategyBasedQueue != nil && scopedRemedy.Remedy.Config.StrategyBasedQueue.Prioritization != nil ==> scopedRemedy.Remedy.Config.StrategyBasedQueue.Prioritization.Groups != nil
+//@   allocates map, NoOpAction, EarlyResponseAction, Request, chan
+//@   modifies mapof(plugin.queues), gEnqDone, gEnqQueue, gEnqReq, gEnqTTL, gEnqSize, gEnqProceed, now
+//@   on entry do gEnqDone = false
+//@   ensures[obeys-the-queue] result1 == nil ==> gEnqDone && (gEnqProceed <==> typeis(result0, *actions.NoOpAction)) && (!gEnqProceed <==> typeis(result0, *actions.EarlyResponseAction))
+//@   ensures[rejected-with-the-configured-status] result1 == nil && typeis(result0, *actions.EarlyResponseAction) ==> result0.(*actions.EarlyResponseAction).Status == remedyConfig.ResponseStatusCode
+//@   ensures[own-queue] seq: gEnqDone ==> in(queue.QueueKey{scopedRemedy.Remedy.Name, queue.Strategy{remedyConfig.AllowedRequestCount, remedyConfig.WindowSizeInSeconds * 1000000000}}, plugin.queues) && gEnqQueue == plugin.queues[queue.QueueKey{scopedRemedy.Remedy.Name, queue.Strategy{remedyConfig.AllowedRequestCount, remedyConfig.WindowSizeInSeconds * 1000000000}}]
+//@   ensures[queue-kept] seq: forall(k, queue.QueueKey, old(in(k, plugin.queues)) ==> in(k, plugin.queues) && plugin.queues[k] == old(plugin.queues[k]))
+//@   ensures[other-queues-untouched] seq: forall(k, queue.QueueKey, k != queue.QueueKey{scopedRemedy.Remedy.Name, queue.Strategy{remedyConfig.AllowedRequestCount, remedyConfig.WindowSizeInSeconds * 1000000000}} ==> (in(k, plugin.queues) <==> old(in(k, plugin.queues))))
+//@   ensures[configured-ttl-and-size] gEnqDone && remedyConfig.TTLSeconds >= 0.0 ==> real(gEnqTTL) <= 1000000000.0 * real(remedyConfig.TTLSeconds) && real(gEnqTTL) > 1000000000.0 * (real(remedyConfig.TTLSeconds) - 1.0) && gEnqSize == remedyConfig.QueueSize
+//@   ensures[own-request-and-priority] gEnqDone ==> gEnqReq != nil && gEnqReq.ID == onRequest.ID && gEnqReq.priority == priority
